@@ -105,12 +105,27 @@ def run_class(run, a, rng, opts, names, tag, n, corpus_dirs):
             if not isinstance(refs, list):
                 continue
             seeds = []
+            # theorem four_models_interoperate (Thm/C07_models): its hypothesis on this layout (Interop.commonWf, decidable);
+            # the statement — every serializer writes the reference encoding, every parser reads it back as the value — is
+            # what the comparisons below evaluate on the emitted code of the four back ends
+            hyp = mdl.model(ip, T, [{"k": "len", "v": {}}]) if not decl.get("parent_id") else None
+            common_class = bool(isinstance(hyp, list) and hyp[0].get("commonwf"))
+            if not decl.get("parent_id"):
+                run.hist("theorem_hypotheses", "Interop.commonWf:%s" % common_class)
             for v, rf in zip(vals, refs):
                 if rf.get("r") != "ok":
                     continue
                 run.case((text, T, W.canon(v)))
                 enc = {nm: ask(nm, text, T, "enc", v) for nm in names}
                 hexes = {nm: e.get("hex") for nm, e in enc.items() if e.get("r") == "ok"}
+                if common_class:
+                    run.count("theorem_instances")
+                    for nm, e in enc.items():
+                        if e.get("r") == "ok" and e.get("hex") != rf.get("hex"):
+                            run.violation("impl", "%s (in the common class of four_models_interoperate): %s serializes %s, the reference encoding is %s"
+                                          % (T, nm, e["hex"][:50], rf["hex"][:50]),
+                                          {"pdl": text, "type": T, "value": v, nm: e, "reference": rf,
+                                           "signature": {"class": "common-class-serializer", "backend": nm}})
                 for x, y in itertools.combinations(names, 2):
                     ex, ey = enc[x], enc[y]
                     if ex.get("r") == "ok" and ey.get("r") == "ok" and ex["hex"] != ey["hex"]:
